@@ -33,6 +33,7 @@ pub const D_FORGET_DRAIN: u8 = 12;
 pub const D_DROP_ONLY: u8 = 13;
 pub const D_DRAIN_NTH: u8 = 14;
 pub const D_SPLICE_END: u8 = 15;
+pub const D_DRAIN_FILTER: u8 = 16;
 
 /// Vec<D> with ids 0,1,2; one operation; container drop; arena stays (no destructor runs there).
 pub fn dl<const OP: u8>() {
@@ -176,6 +177,42 @@ pub fn dl<const OP: u8>() {
                     v.dedup_by_key(|d| d.0 / 2);
                     vassert!(DROPS[0] == 0 && DROPS[1] == 1 && DROPS[2] == 0, "NEVER: [C15] dedup dropped the wrong elements");
                     vassert!(v.len() == 2 && v[0].0 == 0 && v[1].0 == 2, "NEVER: [C13] dedup kept the wrong elements");
+                }
+                D_DRAIN_FILTER => {
+                    // predicate = membership in a symbolic set; the caller consumes `take` of the yielded
+                    // items and then drops the iterator, which must remove (and drop) the other matches
+                    let mask: u8 = kani::any();
+                    let take: usize = kani::any();
+                    kani::assume(take <= 3);
+                    let v = vo.as_mut().unwrap();
+                    {
+                        let mut it = v.drain_filter(|d| (mask >> d.0) & 1 == 1);
+                        let mut t = 0;
+                        let mut last: i32 = -1;
+                        while t < take {
+                            if let Some(x) = it.next() {
+                                vassert!((mask >> x.0) & 1 == 1, "NEVER: [C13] drain_filter yielded an element the predicate rejected");
+                                vassert!(DROPS[x.0 as usize] == 0, "NEVER: [C15] drain_filter yielded a value that was already dropped");
+                                vassert!((x.0 as i32) > last, "NEVER: [C13] drain_filter yielded elements out of order or twice");
+                                last = x.0 as i32;
+                                drop(x);
+                            }
+                            t += 1;
+                        }
+                    }
+                    let mut k = 0;
+                    let mut kept = 0;
+                    while k < 3 {
+                        let sel = (mask >> k) & 1 == 1;
+                        vassert!(DROPS[k] == if sel { 1 } else { 0 }, "NEVER: [C15] drain_filter (+ dropping its iterator) dropped the wrong set of elements");
+                        if !sel {
+                            vassert!(kept < v.len() && v[kept].0 as usize == k, "NEVER: [C13] drain_filter left different elements (or a different order) in the vector than std");
+                            kept += 1;
+                        }
+                        k += 1;
+                    }
+                    vassert!(v.len() == kept, "NEVER: [C13] length after drain_filter differs from std's");
+                    kani::cover!(mask & 7 == 2 && take == 0, "REACH: middle element removed by dropping the iterator");
                 }
                 D_SPLIT_OFF => {
                     kani::assume(i <= 3);
@@ -445,6 +482,7 @@ dh!(dl_into_boxed, 10, dl::<D_INTO_BOXED>());
 dh!(dl_into_slice, 10, dl::<D_INTO_SLICE>());
 dh!(dl_drop_only, 10, dl::<D_DROP_ONLY>());
 dh!(dl_drain_nth, 10, dl::<D_DRAIN_NTH>());
+dh!(dl_drain_filter, 10, dl::<D_DRAIN_FILTER>());
 // (dl_splice_end: timeout 25 min, not registered)
 dh!(bx_basic_h, 10, bx_basic());
 dh!(bx_partial_ord_h, 10, bx_partial_ord());
